@@ -1,11 +1,11 @@
 /-
   Proofs.C01Step — simulation between one iteration of the model's interpreter loop (`Script.stepAt`) and one
-  instruction of the spec (`ScriptSpec.execInstr`), for the opcodes in `provedOp`, and its lifting to whole
-  scripts (`evalLoop` vs `execInstrs ∘ parse`).  Conditional-free fragment: the relation keeps both condition
-  stacks empty (IF/NOTIF/ELSE/ENDIF are not in `provedOp`).
+  instruction of the spec (`ScriptSpec.execInstr`): the simulation relation `Rel` (with the condition-stack
+  correspondence vector form ↔ counter form, `condOf`) and the frame of one loop iteration (`stepAt_frame`).
 -/
 import GocoinV.Proofs.C01Decode
 import GocoinV.Proofs.C01Num
+import GocoinV.Proofs.C01Cond
 namespace GocoinV.Proofs.C01
 open GocoinV GocoinV.Script
 
@@ -62,12 +62,11 @@ theorem checkMinimalPush_eq (d : Bytes) (op : Nat) : checkMinimalPush d op = Scr
 def envOf (T : TotalOracles) (c : Ctx) (leaf : Bytes) (annex : Option Bytes) : ScriptSpec.Env :=
   ⟨T.toOracles, c.tx, ScriptSpec.Flags.ofMask c.flags, c.sv, {}, leaf, annex⟩
 
-/-- simulation relation of the conditional-free fragment -/
+/-- simulation relation between the loop variables of the model and the spec's interpreter state -/
 structure Rel (c : Ctx) (st : St) (s : ScriptSpec.State) : Prop where
   stack : st.stack = s.stack
   alt : st.alt = s.alt
-  exe : st.exe = []
-  cond : s.cond = {}
+  cond : s.cond = condOf st.exe
   opcnt : st.opcnt = s.opCount
   code : c.p.drop st.pbegin = s.code
   csp : st.ed.codesepPos = s.codesepPos
@@ -112,21 +111,25 @@ theorem tail_agree (c : Ctx) (X : Res St) (Y : ScriptSpec.E ScriptSpec.State) (h
     · simp [hs, agree_fail, throw, throwThe, MonadExceptOf.throw]
     · simp [hs, agree_ok, pure, Except.pure]; exact h
 
-/-- The frame of one loop iteration: size / count / disabled / CONST_SCRIPTCODE checks, pushes, and the final
+
+/-- The frame of one loop iteration: size / count / disabled / CONST_SCRIPTCODE checks, pushes, the
+    executed / not executed decision (vector form vs counter form of the condition stack) and the final
     1000-element check agree, provided the opcode-specific parts (`execOp` vs `execOpcode`) agree. -/
 theorem stepAt_frame (T : TotalOracles) (c : Ctx) (hO : c.O = T.toOracles) (leaf : Bytes) (annex : Option Bytes)
     (st : St) (s : ScriptSpec.State) (op : Op) (i : ScriptSpec.Instr) (idx pos : Nat)
     (hop : i.op = op.opcode) (hdata : i.data = op.push.getD [])
     (hR : Rel c st s)
     (H : op.opcode > 0x4e → ∀ st1 s1, Rel c st1 s1 →
-        Agree c (execOp c st1 op.opcode idx pos true) (ScriptSpec.execOpcode (envOf T c leaf annex) s1 i true pos)) :
+        (st1.exe.all id = true ∨ (0x63 ≤ op.opcode ∧ op.opcode ≤ 0x68)) →
+        Agree c (execOp c st1 op.opcode idx pos (st1.exe.all id))
+          (ScriptSpec.execOpcode (envOf T c leaf annex) s1 i (st1.exe.all id) pos)) :
     Agree c (stepAt c st op idx pos) (ScriptSpec.execInstr (envOf T c leaf annex) s i pos) := by
-  obtain ⟨h1, h2, h3, h4, h5, h6, h7, h8⟩ := hR
+  obtain ⟨h1, h2, h3, h5, h6, h7, h8⟩ := hR
   obtain ⟨sstack, salt, scond, sop, scode, scsp, sw⟩ := s
-  simp only at h1 h2 h4 h5 h6 h7 h8
-  subst h4 h5
+  simp only at h1 h2 h3 h5 h6 h7 h8
+  subst h3 h5
   unfold stepAt ScriptSpec.execInstr
-  simp only [h3, hop, hdata, List.all_nil, ScriptSpec.Cond.allTrue, Option.isNone_none, envOf_f, envOf_sv,
+  simp only [hop, hdata, condOf_allTrue, envOf_f, envOf_sv,
     MAX_SCRIPT_ELEMENT_SIZE, ScriptSpec.MAX_SCRIPT_ELEMENT_SIZE, MAX_OPS, ScriptSpec.MAX_OPS_PER_SCRIPT,
     ScriptSpec.MAX_STACK_SIZE, ← isDisabled_eq, ← flag_const, ← flag_mindata, ← checkMinimalPush_eq]
   by_cases hp : (op.push.getD []).length > 520
@@ -142,39 +145,51 @@ theorem stepAt_frame (T : TotalOracles) (c : Ctx) (hO : c.O = T.toOracles) (leaf
         simp [hp, hd, hcs, hcnt, h201, agree_fail, agree_panic, bind, Except.bind, throw, throwThe, MonadExceptOf.throw, pure, Except.pure]
     · simp [hp, hd, hcs, hcnt, agree_fail, agree_panic, bind, Except.bind, throw, throwThe, MonadExceptOf.throw, pure, Except.pure]
   have main : ∀ n, Agree c
-      ((if decide (op.opcode ≤ 78) = true then
+      ((if (st.exe.all id && decide (op.opcode ≤ 78)) = true then
             if (has c.flags VER_MINDATA && !checkMinimalPush (op.push.getD []) op.opcode) = true then Res.fail
-            else Res.ok (({ stack := st.stack, alt := st.alt, pbegin := st.pbegin, opcnt := n, ed := st.ed } : St).push (op.push.getD []))
-          else execOp c { stack := st.stack, alt := st.alt, pbegin := st.pbegin, opcnt := n, ed := st.ed } op.opcode idx pos true) >>=
+            else Res.ok (({ stack := st.stack, alt := st.alt, exe := st.exe, pbegin := st.pbegin, opcnt := n, ed := st.ed } : St).push (op.push.getD []))
+          else if (st.exe.all id || decide (99 ≤ op.opcode) && decide (op.opcode ≤ 104)) = true then
+            execOp c { stack := st.stack, alt := st.alt, exe := st.exe, pbegin := st.pbegin, opcnt := n, ed := st.ed } op.opcode idx pos (st.exe.all id)
+          else Res.ok { stack := st.stack, alt := st.alt, exe := st.exe, pbegin := st.pbegin, opcnt := n, ed := st.ed }) >>=
         fun st' => if List.length st'.stack + List.length st'.alt > 1000 then Res.fail else pure st')
-      ((if decide (op.opcode ≤ 78) = true then
+      ((if (st.exe.all id && decide (op.opcode ≤ 78)) = true then
           if (has c.flags VER_MINDATA && !checkMinimalPush (op.push.getD []) op.opcode) = true then
             throw ScriptSpec.ScriptError.MINIMALDATA
-          else pure (ScriptSpec.push ({ stack := sstack, alt := salt, opCount := n, code := scode, codesepPos := scsp, weightLeft := sw } : ScriptSpec.State) (op.push.getD []))
-        else
-          ScriptSpec.execOpcode (envOf T c leaf annex) ({ stack := sstack, alt := salt, opCount := n, code := scode, codesepPos := scsp, weightLeft := sw } : ScriptSpec.State) i true pos : ScriptSpec.E ScriptSpec.State) >>=
+          else pure (ScriptSpec.push ({ stack := sstack, alt := salt, cond := condOf st.exe, opCount := n, code := scode, codesepPos := scsp, weightLeft := sw } : ScriptSpec.State) (op.push.getD []))
+        else if (st.exe.all id || decide (99 ≤ op.opcode) && decide (op.opcode ≤ 104)) = true then
+          ScriptSpec.execOpcode (envOf T c leaf annex) ({ stack := sstack, alt := salt, cond := condOf st.exe, opCount := n, code := scode, codesepPos := scsp, weightLeft := sw } : ScriptSpec.State) i (st.exe.all id) pos
+        else pure ({ stack := sstack, alt := salt, cond := condOf st.exe, opCount := n, code := scode, codesepPos := scsp, weightLeft := sw } : ScriptSpec.State) : ScriptSpec.E ScriptSpec.State) >>=
         fun st => if st.stack.length + st.alt.length > 1000 then (do throw ScriptSpec.ScriptError.STACK_SIZE; pure st) else pure st) := by
     intro n
     apply tail_agree
-    have hR1 : Rel c { stack := st.stack, alt := st.alt, pbegin := st.pbegin, opcnt := n, ed := st.ed } ({ stack := sstack, alt := salt, opCount := n, code := scode, codesepPos := scsp, weightLeft := sw } : ScriptSpec.State) :=
-      ⟨h1, h2, rfl, rfl, rfl, h6, h7, h8⟩
-    by_cases hpush : op.opcode ≤ 78
-    · simp only [hpush, decide_true, ↓reduceIte]
+    have hR1 : Rel c { stack := st.stack, alt := st.alt, exe := st.exe, pbegin := st.pbegin, opcnt := n, ed := st.ed } ({ stack := sstack, alt := salt, cond := condOf st.exe, opCount := n, code := scode, codesepPos := scsp, weightLeft := sw } : ScriptSpec.State) :=
+      ⟨h1, h2, rfl, rfl, h6, h7, h8⟩
+    by_cases hpush : (st.exe.all id && decide (op.opcode ≤ 78)) = true
+    · simp only [hpush, ↓reduceIte]
       by_cases hm : (has c.flags VER_MINDATA && !checkMinimalPush (op.push.getD []) op.opcode) = true
       · simp [hm, agree_fail, throw, throwThe, MonadExceptOf.throw]
       · simp only [hm, Bool.false_eq_true, ↓reduceIte, agree_ok, St.push, ScriptSpec.push, pure, Except.pure]
-        exact ⟨by simp [h1], h2, rfl, rfl, rfl, h6, h7, h8⟩
-    · simp only [hpush, decide_false, Bool.false_eq_true, ↓reduceIte]
-      have hgt : op.opcode > 78 := by omega
-      have := H hgt { stack := st.stack, alt := st.alt, pbegin := st.pbegin, opcnt := n, ed := st.ed } ({ stack := sstack, alt := salt, opCount := n, code := scode, codesepPos := scsp, weightLeft := sw } : ScriptSpec.State) hR1
-      exact this
+        exact ⟨by simp [h1], h2, rfl, rfl, h6, h7, h8⟩
+    · simp only [hpush, Bool.false_eq_true, ↓reduceIte]
+      by_cases hex : (st.exe.all id || decide (99 ≤ op.opcode) && decide (op.opcode ≤ 104)) = true
+      · simp only [hex, ↓reduceIte]
+        have hgt : op.opcode > 78 := by
+          simp only [Bool.and_eq_true, decide_eq_true_eq, not_and] at hpush
+          simp only [Bool.or_eq_true, Bool.and_eq_true, decide_eq_true_eq] at hex
+          rcases hex with h | h
+          · have := hpush h; omega
+          · omega
+        have hor : (st.exe.all id = true ∨ (0x63 ≤ op.opcode ∧ op.opcode ≤ 0x68)) := by
+          simpa only [Bool.or_eq_true, Bool.and_eq_true, decide_eq_true_eq] using hex
+        exact H hgt _ _ hR1 hor
+      · simp only [hex, Bool.false_eq_true, ↓reduceIte, agree_ok, pure, Except.pure]
+        exact hR1
   by_cases hcnt : ((c.sv == SigVersion.base || c.sv == SigVersion.witnessV0) && decide (op.opcode > 96)) = true
   · by_cases h201 : st.opcnt + 1 > 201
-    · simp [hp, hd, hcs, hcnt, h201, agree_fail, agree_panic, bind, Except.bind, throw, throwThe, MonadExceptOf.throw, pure, Except.pure]
-    · simp only [hp, hd, hcs, hcnt, h201, Bool.false_eq_true, ↓reduceIte, Bool.true_and, Bool.true_or, Bool.false_and, decide_false, pure_bind]
+    · simp [hp, hcnt, h201, agree_fail, bind, Except.bind, throw, throwThe, MonadExceptOf.throw]
+    · simp only [hp, hd, hcs, hcnt, h201, Bool.false_eq_true, ↓reduceIte, Bool.true_and, decide_false, pure_bind]
       exact main (st.opcnt + 1)
-  · simp only [hp, hd, hcs, hcnt, Bool.false_eq_true, ↓reduceIte, Bool.true_and, Bool.true_or, Bool.false_and, pure_bind]
+  · simp only [hp, hd, hcs, hcnt, Bool.false_eq_true, ↓reduceIte, Bool.false_and, pure_bind]
     exact main st.opcnt
-
 
 end GocoinV.Proofs.C01
